@@ -394,6 +394,14 @@ def hostile_cases():
               ("break-at-top-level", "x = 1\nbreak\n"), ("default-argument", "def f(a=1):\n    return a\ny = f()\n"), ("unknown-melody", "from Reduino.Actuators import Buzzer\nb = Buzzer(8)\nb.melody('nope')\n"),
               ("fstring-format-spec", "from Reduino.Communication import SerialMonitor\nm = SerialMonitor(9600)\nx = 1.5\nm.write(f'{x:.1f}')\n"),
               ("long-chained-condition", "x = 1\nif " + " and ".join(["x > 0"] * 300) + ":\n    x = 2\n")]
+    cases += [("format-field-in-rejected-melody", "from Reduino.Actuators import Buzzer\nb = Buzzer(8)\nb.melody('{tune}')\n"),
+              ("format-attr-in-rejected-style", "from Reduino.Displays import LCD\nl = LCD(i2c_addr=39)\nl.progress(0, 5, style='{options.__class__.__name__}')\n"),
+              ("format-index-in-rejected-animation", "from Reduino.Displays import LCD\nl = LCD(i2c_addr=39)\nl.animate('{0[0]}{1}', 0, 'x')\n"),
+              ("format-width-in-rejected-align", "from Reduino.Displays import LCD\nl = LCD(i2c_addr=39)\nl.write(0, 0, 'x', align='{:>99999}')\n"),
+              ("percent-in-rejected-melody", "from Reduino.Actuators import Buzzer\nb = Buzzer(8)\nb.melody('%(x)s %s %d')\n")]
+    # identifiers the transpiler itself uses for bookkeeping are ordinary identifiers for the user
+    for ident in ("_helpers", "_ctx", "ctx", "vars", "helpers", "globals", "var_types", "functions", "self", "lines", "body", "src", "node", "env"):
+        cases.append((f"bookkeeping-name:{ident}", f"{ident} = 3\ndata = [1, 2, 3]\ndata.append({ident})\nn = len(data)\nfor {ident} in range(2):\n    n = n + {ident}\ndef f({ident}):\n    return {ident} + 1\nq = f(2)\n"))
     cases += [("tuple-too-few-values", "a, b, c = 1, 2\n"), ("tuple-too-many-values", "a, b = 1, 2, 3\n"), ("tuple-from-scalar", "a, b = 5\n"),
               ("swap-length-mismatch", "a = 1\nb = 2\na, b = b, a, a\n")]
     cases += [("noise-1", "\x00\x01\x02 garbage ((("), ("noise-2", "def def def"), ("noise-3", "while True:\n\tx = = 1\n"),
